@@ -151,28 +151,77 @@ fn all_arrangements(cur: &mut Vec<i64>, rest: &mut Vec<i64>, out: &mut Vec<Vec<i
     }
 }
 
+/// visit all arrangements of `rest` appended to `cur` without storing them
+fn for_each_arrangement(cur: &mut Vec<i64>, rest: &mut Vec<i64>, f: &mut dyn FnMut(&[i64])) {
+    if rest.is_empty() {
+        f(cur);
+        return;
+    }
+    for k in 0..rest.len() {
+        let v = rest.remove(k);
+        cur.push(v);
+        for_each_arrangement(cur, rest, f);
+        cur.pop();
+        rest.insert(k, v);
+    }
+}
+
+/// by definition: the least arrangement above `d`; when there is none, the least of all and `false`
+fn oracle_successor(d: &[i64]) -> (Vec<i64>, bool) {
+    let mut best: Option<Vec<i64>> = None;
+    let mut least: Option<Vec<i64>> = None;
+    for_each_arrangement(&mut Vec::new(), &mut d.to_vec(), &mut |z: &[i64]| {
+        if z > d && best.as_deref().map_or(true, |b| z < b) {
+            best = Some(z.to_vec());
+        }
+        if least.as_deref().map_or(true, |l| z < l) {
+            least = Some(z.to_vec());
+        }
+    });
+    match best {
+        Some(b) => (b, true),
+        None => (least.unwrap_or_default(), false),
+    }
+}
+
 /// every distinct arrangement in lexicographic order (cached per multiset)
 struct PermOracle {
     cache: HashMap<Vec<i64>, Vec<Vec<i64>>>,
+    stored: usize,
+    misses: usize,
 }
 
 impl PermOracle {
     fn table(&mut self, d: &[i64]) -> &Vec<Vec<i64>> {
         let mut key = d.to_vec();
         key.sort();
-        if self.cache.len() > 64 {
+        if self.stored > 1_000_000 {
             self.cache.clear();
+            self.stored = 0;
         }
-        self.cache.entry(key.clone()).or_insert_with(|| {
+        if !self.cache.contains_key(&key) {
             let mut out = Vec::new();
             all_arrangements(&mut Vec::new(), &mut key.clone(), &mut out);
             out.sort();
             out.dedup();
-            out
-        })
+            self.stored += out.len();
+            self.cache.insert(key.clone(), out);
+        }
+        &self.cache[&key]
     }
-    /// the least arrangement above `d`, or the least of all and `false`
+    /// the least arrangement above `d`, or the least of all and `false`: from the cached table when there
+    /// is one for this multiset (the exhaustive streams), else by a direct scan of all arrangements
     fn successor(&mut self, d: &[i64]) -> (Vec<i64>, bool) {
+        let mut key = d.to_vec();
+        key.sort();
+        if d.len() < 7 || !self.cache.contains_key(&key) && self.misses >= 2 {
+            return oracle_successor(d);
+        }
+        if !self.cache.contains_key(&key) {
+            self.misses += 1;
+        } else {
+            self.misses = 0;
+        }
         let t = self.table(d);
         let k = t.partition_point(|z| z.as_slice() <= d);
         if k < t.len() {
@@ -430,7 +479,7 @@ fn gen(args: &Args, emit: &mut dyn FnMut(String), st: &mut Stats) {
     let mut rng = SplitMix64::new(args.seed ^ 0xC15);
 
     // ---- masks (1): every mask of the 8-bit types; of the 16-bit types exhaustively (thorough) or
-    //      every mask with <= 5 free bits plus a random sample (quick)
+    //      every mask with <= 4 free bits plus a random sample (quick)
     for ty in ["u8", "i8"] {
         for x in 0..256u128 {
             emit_mask(emit, st, true, ty, x);
@@ -440,8 +489,8 @@ fn gen(args: &Args, emit: &mut dyn FnMut(String), st: &mut Stats) {
     for ty in ["u16", "i16"] {
         for x in 0..65536u128 {
             let pc = x.count_ones();
-            let take_sub = thorough || pc <= 5 || rng.chance(1, 64);
-            let take_sup = thorough || 16 - pc <= 5 || rng.chance(1, 64);
+            let take_sub = thorough || pc <= 4 || rng.chance(1, 64);
+            let take_sup = thorough || 16 - pc <= 4 || rng.chance(1, 64);
             if take_sub {
                 emit_mask(emit, st, true, ty, x);
             }
@@ -590,6 +639,6 @@ fn gen(args: &Args, emit: &mut dyn FnMut(String), st: &mut Stats) {
 }
 
 fn main() {
-    let mut po = PermOracle { cache: HashMap::new() };
+    let mut po = PermOracle { cache: HashMap::new(), stored: 0, misses: 0 };
     cli(gen, move |line| run_case(&mut po, line));
 }
